@@ -248,7 +248,7 @@ c.rely("ids-queued-are-pending", WF_IDS, "A-atomic")
 c.ensures("dispatch/ids-queued-stay-pending", WF_IDS)
 c.at_call("mp.Queue.put", "id-recorded-as-running-before-the-feeder-can-see-the-item", "mem(self.running_work_items, work_id)", prop=["C03", "C04"])
 c.raises_only("dispatch/no-exception")
-c.modifies("contents(self.pending_work_items)", "contents(self.running_work_items)", "G.work_ids")
+c.modifies("contents(self.pending_work_items)", "contents(self.running_work_items)", "G.work_ids", "G.fut_running")
 c.assumes("A-atomic")
 i = M.invariant(f"{EMT}.add_call_item_to_queue", 0, "while True:")
 i.inv("ids-queued-are-pending", WF_IDS)
@@ -265,6 +265,8 @@ i.iter_post("dispatch/only-after-marking-running",
             "implies(log_count('cq_put') >= 1, log_count('cq_put') == 1 and log_count('set_running') == 1 and log_arg('set_running', 0, 1) "
             "and log_arg('set_running', 0, 0) is self.pending_work_items[log_arg('wq_get', 0, 1)].future "
             "and log_pos('set_running', 0) < log_pos('cq_put', 0))", prop="C03")
+i.iter_post("dispatch/a-dispatched-future-is-running",
+            "implies(log_count('cq_put') >= 1, G.fut_running[self.pending_work_items[log_arg('wq_get', 0, 1)].future])", prop=["C03", "C04"])
 i.iter_post("dispatch/nothing-when-full",
             "implies(log_count('cq_put') >= 1, log_count('cq_full') == 1 and not log_arg('cq_full', 0, 1))", prop="C03")
 
@@ -283,6 +285,10 @@ c.rely("manager-shares-the-executor-tables",
 c.rely("registered-pids-are-live-children", "forall(Int, lambda k: implies(k in self.processes, G.pid_live[k] and self.processes[k].pid == k))", "A-pids")
 c.rely("dispatched-ids-are-running",
        "implies(not is_int(result_item) and result_item.work_id in self.pending_work_items, mem(self.running_work_items, result_item.work_id))", "A-atomic")
+c.rely("an-answered-future-is-running-and-unresolved",
+       "implies(not is_int(result_item) and result_item.work_id in self.pending_work_items, "
+       "G.fut_running[self.pending_work_items[result_item.work_id].future] and "
+       "G.fut_n_exc[self.pending_work_items[result_item.work_id].future] + G.fut_n_res[self.pending_work_items[result_item.work_id].future] == 0)", "A-running")
 # ---- a _ResultItem: the right future, once, nothing else
 RI = "not is_int(result_item)"
 WID = "result_item.work_id"
@@ -328,7 +334,7 @@ c.ensures("pid/respawns-whenever-work-waits-and-the-pool-is-short",
 c.ensures("pid/reads-the-executor-only-when-work-waits", f"implies({PID}, (log_count('deref') == 1) == {WAITING})", prop="C07")
 c.raises("result/only-from-respawn", "BaseException", post=f"{PID}")
 c.modifies("contents(self.pending_work_items)", "contents(self.running_work_items)", "contents(self.processes)",
-           "G.fut_n_exc", "G.fut_n_res", "G.fut_exc", "G.fut_res", "G.sem_released", "G.joined", "G.started", "G.pid_live", "G.proc_of_pid")
+           "G.fut_n_exc", "G.fut_n_res", "G.fut_exc", "G.fut_exc_cls", "G.fut_res", "G.sem_released", "G.joined", "G.started", "G.pid_live", "G.proc_of_pid")
 c.assumes("A-atomic")
 c.cover("pid-known", "is_int(result_item) and old(result_item in self.processes)")
 c.cover("result-known", "not is_int(result_item) and old(result_item.work_id in self.pending_work_items)")
@@ -425,7 +431,7 @@ c.modifies()
 # ---------------------------------------------------------------- kill_workers (C02, C06)
 PROCS_EMPTY = "len(self.processes) == 0"
 ALL_KILLED = "forall(Int, lambda k: implies(old(k in self.processes), G.killed[old(self.processes[k]).pid] and G.joined[old(self.processes[k])]))"
-c = M.contract(f"{EMT}.kill_workers", props=["C02", "C06"])
+c = M.contract(f"{EMT}.kill_workers", props=["C02", "C06", "C20"])
 c.param("self", T.Ref(EMT)).param("reason", T.Str, default=VStr(""))
 c.ensures("kill/no-worker-left-registered", PROCS_EMPTY)
 c.ensures("kill/every-worker-tree-killed-and-reaped", ALL_KILLED)
@@ -440,9 +446,11 @@ i.variant("len(self.processes)")
 # ---------------------------------------------------------------- terminate_broken (C02)
 c = M.contract(f"{EMT}.terminate_broken", props=["C02"])
 c.param("self", T.Ref(EMT)).param("bpe", T.Exc())
+# a pending future is resolved by this call (failed with bpe) or was found already resolved by its owner (cancelled / finished: set_exception refused)
 ALL_FAILED = ("forall(Int, lambda k: implies(old(k in self.pending_work_items), "
-              "G.fut_exc[old(self.pending_work_items[k]).future] is bpe and "
-              "G.fut_n_exc[old(self.pending_work_items[k]).future] >= old(G.fut_n_exc[old(self.pending_work_items[k]).future]) + 1))")
+              "(G.fut_exc[old(self.pending_work_items[k]).future] is bpe and "
+              "G.fut_n_exc[old(self.pending_work_items[k]).future] >= old(G.fut_n_exc[old(self.pending_work_items[k]).future]) + 1) or "
+              "G.fut_refused[old(self.pending_work_items[k]).future] >= old(G.fut_refused[old(self.pending_work_items[k]).future]) + 1))")
 c.ensures("terminate/flagged-broken-first", "log_pos('call:_ExecutorFlags.flag_as_broken', 0) == 0 and "
           "log_arg('call:_ExecutorFlags.flag_as_broken', 0, 1) is self.executor_flags and log_arg('call:_ExecutorFlags.flag_as_broken', 0, 2) is bpe")
 c.ensures("terminate/every-pending-future-fails-with-the-error", ALL_FAILED)
@@ -453,25 +461,31 @@ c.ensures("terminate/workers-killed-then-internals-joined",
           "log_before('call:_ExecutorManagerThread.kill_workers', 'call:_ExecutorManagerThread.join_executor_internals')")
 c.ensures("terminate/workers-gone", PROCS_EMPTY + " and " + ALL_KILLED)
 c.modifies("self.executor_flags.shutdown", "self.executor_flags.broken", "contents(self.pending_work_items)", "contents(self.processes)",
-           "G.fut_n_exc", "G.fut_exc", "G.killed", "G.joined", "G.sem_released", "G.n_sentinels", "self.thread_wakeup._closed", "G.pid_live", "G.ps_killed")
-c.raises("terminate/only-from-joining-internals", "BaseException")
+           "G.fut_n_exc", "G.fut_exc", "G.fut_exc_cls", "G.fut_refused", "G.killed", "G.joined", "G.sem_released", "G.n_sentinels", "self.thread_wakeup._closed", "G.pid_live", "G.ps_killed")
+c.raises("terminate/only-from-joining-internals", "BaseException",
+         post=ALL_FAILED + " and len(self.pending_work_items) == 0 and self.executor_flags.broken is bpe and "
+              "log_count('call:_ExecutorManagerThread.kill_workers') + log_count('raise:_ExecutorManagerThread.kill_workers') == 1")
 c.assumes("A-atomic")
+c.replay_for("only-from-joining-internals", "cancelled_pending_future", mode="'terminate_broken'")
 i = M.invariant(f"{EMT}.terminate_broken", 0, "for work_item in self.pending_work_items.values():")
-i.inv("visited-futures-failed", "forall(Ref('_WorkItem'), lambda w: implies(mem(__seen0, w), G.fut_exc[w.future] is bpe and "
-      "G.fut_n_exc[w.future] >= old(G.fut_n_exc[w.future]) + 1))")
-i.inv("counts-only-grow", "forall(Ref('Future'), lambda f: G.fut_n_exc[f] >= old(G.fut_n_exc[f]))")
+i.inv("visited-futures-failed", "forall(Ref('_WorkItem'), lambda w: implies(mem(__seen0, w), (G.fut_exc[w.future] is bpe and "
+      "G.fut_n_exc[w.future] >= old(G.fut_n_exc[w.future]) + 1) or G.fut_refused[w.future] >= old(G.fut_refused[w.future]) + 1))")
+i.inv("counts-only-grow", "forall(Ref('Future'), lambda f: G.fut_n_exc[f] >= old(G.fut_n_exc[f]) and G.fut_refused[f] >= old(G.fut_refused[f]))")
 i.inv("no-result-set", "G.fut_n_res == old(G.fut_n_res) and G.fut_res == old(G.fut_res)")
 i.iter_post("only-pending-futures-touched-with-the-error",
-            "log_count('set_exception') == 1 and log_arg('set_exception', 0, 1) is bpe and log_count('set_result') == 0 and "
-            "mem(at_entry(self.pending_work_items.values()), __item) and log_arg('set_exception', 0, 0) is __item.future")
+            "log_count('set_exception') + log_count('set_exception_refused') == 1 and log_count('set_result') == 0 and "
+            "mem(at_entry(self.pending_work_items.values()), __item) and "
+            "implies(log_count('set_exception') == 1, log_arg('set_exception', 0, 1) is bpe and log_arg('set_exception', 0, 0) is __item.future) and "
+            "implies(log_count('set_exception_refused') == 1, log_arg('set_exception_refused', 0, 0) is __item.future)")
 
 # ---------------------------------------------------------------- flag_executor_shutting_down (C05, C06)
 c = M.contract(f"{EMT}.flag_executor_shutting_down", props=["C05", "C06"])
 c.param("self", T.Ref(EMT))
 KW = "self.executor_flags.kill_workers"
 FAILED_SHUTDOWN = ("forall(Int, lambda k: implies(old(k in self.pending_work_items), "
-                   "exc_is(as_(G.fut_exc[old(self.pending_work_items[k]).future], '<exc>'), 'ShutdownExecutorError') and "
-                   "G.fut_n_exc[old(self.pending_work_items[k]).future] >= old(G.fut_n_exc[old(self.pending_work_items[k]).future]) + 1))")
+                   "(cls_id_is(G.fut_exc_cls[old(self.pending_work_items[k]).future], 'ShutdownExecutorError') and "
+                   "G.fut_n_exc[old(self.pending_work_items[k]).future] >= old(G.fut_n_exc[old(self.pending_work_items[k]).future]) + 1) or "
+                   "G.fut_refused[old(self.pending_work_items[k]).future] >= old(G.fut_refused[old(self.pending_work_items[k]).future]) + 1))")
 c.ensures("shutdown/flagged", "self.executor_flags.shutdown == True and log_pos('call:_ExecutorFlags.flag_as_shutting_down', 0) == 0")
 c.ensures("graceful/touches-no-future-and-no-worker",
           f"implies(not {KW}, {NO_FUTURE_TOUCHED} and G.killed == old(G.killed) and len(self.pending_work_items) == old(len(self.pending_work_items)) "
@@ -482,15 +496,18 @@ c.ensures("forced/no-fabricated-result", "G.fut_n_res == old(G.fut_n_res) and G.
 c.ensures("forced/all-workers-killed-and-reaped", f"implies({KW}, {PROCS_EMPTY} and {ALL_KILLED})", prop="C06")
 c.raises_only("shutdown/no-exception")
 c.modifies("self.executor_flags.shutdown", "self.executor_flags.kill_workers", "contents(self.pending_work_items)", "contents(self.processes)",
-           "G.fut_n_exc", "G.fut_exc", "G.killed", "G.joined", "G.ps_killed", "G.pid_live")
+           "G.fut_n_exc", "G.fut_exc", "G.fut_exc_cls", "G.fut_refused", "G.killed", "G.joined", "G.ps_killed", "G.pid_live")
 c.assumes("A-atomic")
+c.replay_for("shutdown/no-exception", "cancelled_pending_future", mode="'shutdown'")
 i = M.invariant(f"{EMT}.flag_executor_shutting_down", 0, "while self.pending_work_items:")
 i.inv("removed-futures-failed", "forall(Int, lambda k: implies(old(k in self.pending_work_items) and not (k in self.pending_work_items), "
-      "exc_is(as_(G.fut_exc[old(self.pending_work_items[k]).future], '<exc>'), 'ShutdownExecutorError') and "
-      "G.fut_n_exc[old(self.pending_work_items[k]).future] >= old(G.fut_n_exc[old(self.pending_work_items[k]).future]) + 1))")
+      "(cls_id_is(G.fut_exc_cls[old(self.pending_work_items[k]).future], 'ShutdownExecutorError') and "
+      "G.fut_n_exc[old(self.pending_work_items[k]).future] >= old(G.fut_n_exc[old(self.pending_work_items[k]).future]) + 1) or "
+      "G.fut_refused[old(self.pending_work_items[k]).future] >= old(G.fut_refused[old(self.pending_work_items[k]).future]) + 1))")
 i.inv("remaining-are-original", "forall(Int, lambda k: implies(k in self.pending_work_items, old(k in self.pending_work_items) and "
       "self.pending_work_items[k] is old(self.pending_work_items[k])))")
 i.inv("counts-only-grow", "forall(Ref('Future'), lambda f: G.fut_n_exc[f] >= old(G.fut_n_exc[f]))")
+i.inv("refusals-only-grow", "forall(Ref('Future'), lambda f: G.fut_refused[f] >= old(G.fut_refused[f]))")
 i.inv("no-result-set", "G.fut_n_res == old(G.fut_n_res) and G.fut_res == old(G.fut_res)")
 i.variant("len(self.pending_work_items)")
 
@@ -680,6 +697,9 @@ CI = "(obj is not None)"
 WIDF = "obj.work_id"
 FUTF = f"old(self.pending_work_items[{WIDF}]).future"
 c.rely("dispatched-ids-are-running", f"implies({CI}, mem(self.running_work_items, {WIDF}))", "A-atomic")
+c.rely("a-reported-item-has-a-running-unresolved-future",
+       f"implies({CI} and {WIDF} in self.pending_work_items, G.fut_running[self.pending_work_items[{WIDF}].future] and "
+       f"G.fut_n_exc[self.pending_work_items[{WIDF}].future] + G.fut_n_res[self.pending_work_items[{WIDF}].future] == 0)", "A-running")
 c.ensures("onerror/own-future-fails-once",
           f"implies({CI} and old({WIDF} in self.pending_work_items), G.fut_n_exc[{FUTF}] == old(G.fut_n_exc[{FUTF}]) + 1 and "
           f"G.fut_n_res[{FUTF}] == old(G.fut_n_res[{FUTF}]))")
@@ -703,7 +723,7 @@ c.ensures("onerror/manager-woken-under-shutdown-lock-after-failing-the-future",
 c.ensures("onerror/not-a-task-leaves-executor-state", f"implies(not {CI}, {NO_FUTURE_TOUCHED} and len(self.pending_work_items) == old(len(self.pending_work_items)))")
 c.raises("onerror/only-pipe-error-from-wakeup", "Exception", post=f"{CI}")
 c.raises_only("onerror/only-exceptions")
-c.modifies("contents(self.pending_work_items)", "contents(self.running_work_items)", "G.fut_n_exc", "G.fut_exc")
+c.modifies("contents(self.pending_work_items)", "contents(self.running_work_items)", "G.fut_n_exc", "G.fut_exc", "G.fut_exc_cls")
 c.assumes("A-atomic")
 c.note("`flags` (broken/shutdown) are not reachable from the queue object: untouched by construction (frame)")
 c.cover("task-too-large", f"{CI} and exc_is(e, 'struct.error') and old({WIDF} in self.pending_work_items)")
